@@ -208,7 +208,7 @@ define(void)
 	struct token *t;
 	enum tokenkind prev;
 	struct macro *m;
-	struct macroparam *p;
+	struct macroparam *p, *q;
 	struct array params = {0}, repl = {0};
 	struct mapkey k;
 	void **entry;
@@ -237,6 +237,10 @@ define(void)
 				p->flags |= PARAMVAR;
 			} else {
 				p->name = tokencheck(&tok, TIDENT, "of macro parameter name or '...'");
+				for (q = params.val; q != p; ++q) {
+					if (strcmp(q->name, p->name) == 0)
+						error(&tok.loc, "duplicate macro parameter '%s'", p->name);
+				}
 			}
 		}
 		scan(t);  /* first token in replacement list */
